@@ -35,7 +35,7 @@ MIN_COUNTERS = {"quick": {"etree_insertions": 15000, "text_insertions": 3000, "c
 
 V1HDR = "OFXHEADER:100\r\nDATA:OFXSGML\r\nVERSION:160\r\nSECURITY:NONE\r\nENCODING:UNICODE\r\nCHARSET:NONE\r\nCOMPRESSION:NONE\r\nOLDFILEUID:NONE\r\nNEWFILEUID:NONE\r\n\r\n"
 KINDS = ["unknown-data", "unknown-empty", "unknown-agg", "unknown-agg-parent-children", "known-elsewhere-agg", "vendor-data", "vendor-agg", "vendor-agg-parent-children",
-         "unknown-named-like-python-attribute", "known-elsewhere-agg-broken"]
+         "unknown-named-like-python-attribute", "known-elsewhere-agg-broken", "unknown-agg-deep", "data-tag-as-agg"]
 RENAMED = {"FROM", "FRM", "YIELD", "YLD"}
 
 
@@ -86,6 +86,24 @@ def make_insertion(kind, rng, parent_elem, parent_cls, classes):
         return e
     if kind == "unknown-empty":
         return ET.Element(rng.choice(["ZZEMPTY", "XAGG", odd_name(rng)]))
+    if kind == "unknown-agg-deep":
+        # an extension nested far deeper than anything OFX itself defines (the text forms go through the tokenizer, too)
+        e = ET.Element("ZZDEEP")
+        cur = e
+        for i in range(rng.choice([12, 24, 40])):
+            cur = ET.SubElement(cur, "ZZD" if i % 2 else "ZZE")
+        cur.append(leaf("ZZBOTTOM", "x"))
+        return e
+    if kind == "data-tag-as-agg":
+        # an unknown AGGREGATE whose tag the document uses elsewhere (usually earlier) for plain data - here it is an extension
+        for n in rng.sample(["MEMO", "CODE", "NAME", "TRNUID", "DTSERVER", "SEVERITY", "LANGUAGE", "ACCTID", "FITID", "ZZUNKNOWN", "NEWTAG", "Q9"], 12):
+            if n not in decl and n != parent_elem.tag:
+                e = ET.Element(n)
+                e.append(leaf("ZZK", "1"))
+                inner = ET.SubElement(e, n)   # ... nested in itself once, with data at the bottom
+                inner.append(leaf("ZZV", "2"))
+                return e
+        return None
     if kind == "unknown-agg":
         e = ET.Element(rng.choice(["ZZAGG", odd_name(rng)]))
         e.append(leaf("TRNUID", "1"))
